@@ -766,7 +766,7 @@ func (ex *Exec) castObligation(s *State, fr *Frame, p Term, elem types.Type, at 
 		l := ex.layouts.Of(elem)
 		ok = Eq(atypeOf(ex.st, p), IntC(int64(ex.layoutClass(l, elem))))
 	}
-	ex.emit(s, "cast", fmt.Sprintf("cast/%s/%s@%s", normName(fr.fn.RelString(ex.prog.SSA.Pkg)), name, ex.prog.SrcAnchor(at.Pos())), Or(Eq(p, Null), ok), at.Pos(), "unsafe.Pointer converted to *"+name+" only when the object was allocated with an identical layout")
+	ex.emit(s, "cast", fmt.Sprintf("cast/%s/%s@%s", normName(fr.fn.RelString(ex.prog.SSA.Pkg)), name, ex.anchor(at.Pos())), Or(Eq(p, Null), ok), at.Pos(), "unsafe.Pointer converted to *"+name+" only when the object was allocated with an identical layout")
 }
 
 func (ex *Exec) layoutByName(n string) *StructLayout {
